@@ -6,9 +6,9 @@ import random
 LEVEL = "model_checking"
 MANIFEST = {
     "engine": "tlc Blame histories + vhdag2 c46 + tlc BlameTrace",
-    "technique": "TLC generates file histories (linear and merge, edits / moves / duplicates) and, for the determinate class, the exact Origin; go-git's Blame output for every commit of every history is recorded and judged in TLA+ by the admissibility predicate (batch trace validation); on the determinate class Origin = go-git = git blame --porcelain is compared exactly",
-    "text": "For 4 hand-made and seeded generated histories (5 commits, <= 2 ordered parents, 5 instants; determinate: 10 fresh symbols, increasing versions; arbitrary: 3 symbols with duplicates and moves): every blame go-git produces is admissible (one answer per line; the blamed commit and a parent path down to it contain the line; the blamed commit differs from each of its parents; no more copies blamed than it has); on determinate histories every line is attributed to the commit that introduced it, which is also git's answer. Theorems (Origin is admissible and blames ancestors only; self-blame is admissible iff the commit changed the file) are TLC invariants.",
-    "note": "Outside the determinate class (moves, duplicates, re-introduced lines) git's exact answer depends on diff heuristics and is not compared: only admissibility is decided there - the first sentence of the property is decided on the determinate class only. One file, no renames, no -M/-C, text lines without trailing-newline variations.",
+    "technique": "TLC generates file histories (linear and merge, edits / moves / duplicates) and, for the determinate class, the exact Origin; go-git's Blame output for every commit of every history is recorded and judged in TLA+ by the admissibility predicate (batch trace validation); on the determinate and first-parent-determinate classes the TLA+ origin = go-git = git blame --porcelain is compared exactly",
+    "text": "For 5 hand-made and seeded generated histories (5 commits, <= 2 ordered parents, 5 instants; determinate: 10 fresh symbols, increasing versions; first-parent-determinate: 6 symbols, increasing versions, symbols introduced independently on several branches or re-introduced; arbitrary: 3 symbols with duplicates and moves): every blame go-git produces is admissible (one answer per line; the blamed commit and a parent path down to it contain the line; the blamed commit differs from each of its parents; no more copies blamed than it has); on determinate histories every line is attributed to the commit that introduced it, and on first-parent-determinate ones to the commit reached by git's rule (an identical parent takes all, else the first parent that has the line), which is also git's answer on every such blame. Theorems (Origin is admissible and blames ancestors only; self-blame is admissible iff the commit changed the file) are TLC invariants.",
+    "note": "Outside the (first-parent-)determinate classes (moves, duplicates) git's exact answer depends on diff heuristics and is not compared: only admissibility is decided there - the first sentence of the property is decided on histories whose versions are strictly increasing only. One file, no renames, no -M/-C, text lines without trailing-newline variations.",
 }
 
 CFG = """CONSTANTS
